@@ -65,6 +65,8 @@ static bool g_quiet = false;
 static uint64_t g_quiet_calls = 0, g_quiet_default_calls = 0;
 
 static inline void *token(int port_id, long idx) { return (void *)(uintptr_t)(0x100000 + port_id * 4096 + (idx + 1)); }
+// the child object a sub-tree callback derives from the object it was handed (as rRecur does with obj->member): a wrong incoming object gives a wrong child
+static inline void *child_token(void *parent, int port_id, long idx) { return (void *)(((uintptr_t)token(port_id, idx)) ^ (((uintptr_t)parent * 0x9E3779B97F4A7C15ull) & 0xffffff0000000ull)); }
 static inline void *root_token() { return (void *)(uintptr_t)0xbeef0; }
 
 static inline pat::Pattern parse_name(const std::string &name, const std::string &spec)
@@ -114,6 +116,7 @@ struct GenOpts {
     int max_enum = 12;
     bool long_names = false;
     bool unique_names = false;
+    double p_overlap_sub = 0;     // a second sub-tree port in the same table whose enumeration overlaps ("v#4/" next to "v#8/"): both receive /v2/... (C04)
     double p_sub_spec = 0;        // sub-tree ports that carry an argument spec ("sub/:i"): the spec filters every message routed below (C04)
     double p_slash_leaf = 0;      // leaf ports whose name ends in '/' although they have no sub-table (C18)
 };
@@ -174,7 +177,21 @@ static inline Table *gen_table(Tree &t, Rng &r, const GenOpts &o, int depth)
         pd->index_in_table = (int)tb->ports.size();
         if(t.all_ports.size() <= (size_t)pd->id) t.all_ports.resize(pd->id + 1);
         t.all_ports[pd->id] = pd.get();
+        bool overlap = is_sub && pd->name.find('#') != std::string::npos && pd->name.find('/') == pd->name.size() - 1 && r.chance(o.p_overlap_sub);
+        std::string stem = pd->name.substr(0, pd->name.find('#'));
         tb->ports.push_back(std::move(pd));
+        if(overlap) {
+            std::unique_ptr<PortDesc> q(new PortDesc);
+            q->id = t.next_id++; q->owner = tb;
+            static const int NS2[] = {2, 5, 8, 11};
+            q->name = stem + "#" + std::to_string(NS2[r.below(4)]) + "/";
+            q->sub = gen_table(t, r, o, depth + 1);
+            q->full = q->name; q->pattern = parse_name(q->name, "");
+            q->index_in_table = (int)tb->ports.size();
+            if(t.all_ports.size() <= (size_t)q->id) t.all_ports.resize(q->id + 1);
+            t.all_ports[q->id] = q.get();
+            tb->ports.push_back(std::move(q));
+        }
     }
     tb->has_default = r.chance(o.p_default);
     return tb;
@@ -197,7 +214,7 @@ static inline std::function<void(const char *, rtosc::RtData &)> make_cb(Tree &t
             tp->log.push_back(LogEntry{pd->id, m, d.loc ? std::string(d.loc) : std::string(), d.loc != 0, d.obj, d.port, d.message});
         };
     return [tp, pd](const char *m, rtosc::RtData &d) {
-        d.obj = token(pd->id, first_index(m));
+        d.obj = child_token(d.obj, pd->id, first_index(m));
         // the library's recursion contract (SNIP): cut the toplevel(s) this port's name covers
         int slashes = (int)std::count(pd->name.begin(), pd->name.end(), '/');
         for(int s = 0; s < slashes; ++s) { while(*m && *m != '/') ++m; m = *m ? m + 1 : m; }
@@ -305,7 +322,7 @@ static inline void ref_dispatch(const Table *tb, const std::string &addr, size_t
             // a spec on the sub-tree port admits or rejects the whole message by its type tags
             int tv = p->pattern.has_spec ? pat::type_verdict(p->pattern, types) : 1;
             if(tv == 0) continue;
-            ref_dispatch(p->sub, addr, off + consumed, types, token(p->id, first_index(rel.c_str())), optional || tv < 0, out);
+            ref_dispatch(p->sub, addr, off + consumed, types, child_token(obj, p->id, first_index(rel.c_str())), optional || tv < 0, out);
         }
     }
 }
